@@ -113,6 +113,24 @@ def gen_history(rng, nops, late=False, advb=False, huge=False):
     return lines
 
 
+def bulk_history(rng, n):
+    """hundreds of records alive at once (an mDNS cache on a busy link): n distinct records of mixed TTLs, then
+    lookups, a victim with a short TTL in the middle, and advances across its lifetime"""
+    lines, now = [], 0
+    k = rng.randrange(n)
+    for i in range(n):
+        name = ("n%03d." % i).encode().hex()
+        ttl = 3 if i == k else rng.choice([120, 4500, 604800])
+        lines.append("ADD %s %d" % (rec(name, rng.choice([1, 16, 12]), i % 3, ttl, False), rng.choice(JITTERS)))
+        if i % 97 == 0:
+            now += 1
+            lines.append("ADV %d" % now)
+    victim = ("n%03d." % k).encode().hex()
+    lines += ["LOOKUP %s 255" % victim, "ADV %d" % (now + 1499), "LOOKUP %s 255" % victim, "ADV %d" % (now + 2999),
+              "LOOKUP %s 255" % victim, "ADV %d" % (now + 3001), "LOOKUP %s 255" % victim, "ADV %d" % (now + 60001), "LOOKUP - 1"]
+    return lines
+
+
 def alphabet():
     """11 letters for the exhaustive enumeration of short histories"""
     a = rec("612e", 1, 0, 1, False)
@@ -182,6 +200,8 @@ def explore(ctx, project, attribute, replay=None, search_boost=False):
         nh = 150 if ctx.tier == "quick" else 3000
         for i in range(nh):
             scripts.append(Script("h%d" % i, "cache", gen_history(ctx.rng, ctx.rng.randrange(2, 20), advb=ctx.rng.random() < 0.3, huge=True)))
+        for i in range(2 if ctx.tier == "quick" else 12):
+            scripts.append(Script("k%d" % i, "cache", bulk_history(ctx.rng, ctx.rng.choice([520, 600, 700, 1100]))))
         depth = 3 if ctx.tier == "quick" else 5
         for i, h in enumerate(enum_histories(depth)):
             scripts.append(Script("e%d" % i, "cache", h))
@@ -209,7 +229,7 @@ def explore(ctx, project, attribute, replay=None, search_boost=False):
         res["exhaustive"] = False
     res["rule"] = ("histories of ADD/ADV/LOOKUP (+LATE) over 3 names x 4 types (A, TXT, PTR, NSEC with bitmaps differing after a zero octet) x 3 data values x TTL in "
                    "{0,1,2,3,120,4500,604800,..} x flush x jitter, advances aimed at trigger and expiry instants "
-                   "(-1/0/+1 ms), some of them stopping with the firing due at that very instant still pending (ADVB) so that the next ADD or LOOKUP is processed first; histories with TTLs far beyond a week (odd multiples of 2^29 s, 4294968 s, 2^32-1 s) under a clock below 2^29 ms; plus every history of <= %s operations over an 11-letter alphabet; a case is "
+                   "(-1/0/+1 ms), some of them stopping with the firing due at that very instant still pending (ADVB) so that the next ADD or LOOKUP is processed first; histories with TTLs far beyond a week (odd multiples of 2^29 s, 4294968 s, 2^32-1 s) under a clock below 2^29 ms; bulk histories with 520..1100 records alive at once; plus every history of <= %s operations over an 11-letter alphabet; a case is "
                    "non-trivial when the implementation produced at least one signal or non-empty lookup; "
                    "distinct = distinct operation sequences" % (res.get("exhaustive_depth", "-")))
     return res
